@@ -50,6 +50,8 @@ KNOWN = [
 ]
 
 FIXED = [
+ ("C17", "bf5ed03", "C17.R1 public evict_tail lost the slot: capacity 1, touch a; evict_tail(); touch b returned false (findings/T11; noted by a round-6 seeding agent, confirmed and fixed)"),
+ ("C17", "5171568", "C06.R10 checkpoint deleted the file it had just written: checkpoint(gen 1); bump_generation; load_from_disk(1); checkpoint -> generation 1 file removed, next load fails (findings/T11)"),
  ("C02", "7a31e9f", "C02.R7 parse_index_filename('a\\u{e9}0000000.idx'): byte index 2 is not a char boundary (findings/T10)"),
  ("C02", "bd5220d", "C02.R4 SizeManifest::parse with esize_bytes = 8 and two entries of u64::MAX: Iterator::sum overflow in validate (findings/T10)"),
  ("C02", "64b3128", "C02.R4 ESpec::parse('b:{18446744073709551615K=n}'): multiply overflow on a u64 parsed from the spec string (findings/T9)"),
